@@ -423,18 +423,31 @@ func TestLateRegistrations(t *testing.T) {
 				}
 			}
 		}
+		// decorators registered before Run: each must act exactly once on every handler's messages, in the order added,
+		// however often RunHandlers is called later for other handlers
+		nDec := rapid.IntRange(0, 2).Draw(t, "decoratorsBeforeRun")
+		wantPub, wantSub := "", ""
+		for d := 0; d < nDec; d++ {
+			pd, sd := fmt.Sprintf("P%d,", d), fmt.Sprintf("S%d,", d)
+			wantPub, wantSub = wantPub+pd, wantSub+sd
+			router.AddPublisherDecorators(message.MessageTransformPublisherDecorator(func(m *message.Message) { m.Metadata["pubdec"] += pd }))
+			router.AddSubscriberDecorators(message.MessageTransformSubscriberDecorator(func(m *message.Message) { m.Metadata["subdec"] += sd }))
+		}
 		type hT struct {
 			name     string
 			sub      *lib.ScriptSub
+			pub      *lib.ScriptPub
 			expected []int
+			sawSub   string
 		}
 		addHandler := func(name string) *hT {
-			h := &hT{name: name, sub: lib.NewScriptSub("")}
-			handle := router.AddNoPublisherHandler(name, "in", h.sub, func(msg *message.Message) error {
+			h := &hT{name: name, sub: lib.NewScriptSub(""), pub: lib.NewScriptPub("")}
+			handle := router.AddHandler(name, "in", h.sub, "out", h.pub, func(msg *message.Message) ([]*message.Message, error) {
 				mu.Lock()
 				traces[name] = append(traces[name], "handler")
+				h.sawSub = msg.Metadata["subdec"]
 				mu.Unlock()
-				return nil
+				return []*message.Message{message.NewMessage("out-of-"+name, nil)}, nil
 			})
 			own := rapid.IntRange(0, 2).Draw(t, "ownMiddlewares")
 			var ownIDs []int
@@ -447,7 +460,7 @@ func TestLateRegistrations(t *testing.T) {
 			h.expected = ownIDs
 			return h
 		}
-		probe := func(h *hT, all []int) {
+		probe := func(h *hT, all []int, checkTrace bool) {
 			if !h.sub.WaitSubs(1, lib.Live) {
 				t.Fatalf("harness: handler %s not subscribed", h.name)
 			}
@@ -474,8 +487,23 @@ func TestLateRegistrations(t *testing.T) {
 			got := strings.Join(traces[h.name], " ")
 			traces[h.name] = nil
 			mu.Unlock()
-			if got != strings.Join(want, " ") {
+			// (for a handler that was already running when later router-level middlewares were registered, whether those
+			// apply to it is not demanded either way: only its decorators are judged then)
+			if checkTrace && got != strings.Join(want, " ") {
 				t.Fatalf("violation: handler %q (started after %d router-level registrations) ran [%s], expected [%s]", h.name, len(all), got, strings.Join(want, " "))
+			}
+			mu.Lock()
+			sawSub := h.sawSub
+			mu.Unlock()
+			if sawSub != wantSub {
+				t.Fatalf("violation: message of handler %q went through the subscriber decorators [%s], registered: [%s]", h.name, sawSub, wantSub)
+			}
+			calls := h.pub.Calls()
+			if len(calls) == 0 || len(calls[len(calls)-1].Snaps) != 1 {
+				t.Fatalf("violation: handler %q: output not published once (%d Publish calls)", h.name, len(calls))
+			}
+			if gotPub := calls[len(calls)-1].Snaps[0].Meta["pubdec"]; gotPub != wantPub {
+				t.Fatalf("violation: output of handler %q went through the publisher decorators [%s], registered: [%s]", h.name, gotPub, wantPub)
 			}
 		}
 		addRouterLevel("routerLevelBeforeRun")
@@ -494,9 +522,11 @@ func TestLateRegistrations(t *testing.T) {
 			case <-time.After(lib.Live):
 			}
 		}()
-		probe(first, append([]int{}, routerLevel...))
+		probe(first, append([]int{}, routerLevel...), true)
+		startedWith := map[*hT][]int{first: append([]int{}, routerLevel...)}
+		running := []*hT{first}
 		phases := rapid.IntRange(1, 3).Draw(t, "latePhases")
-		canon := fmt.Sprintf("late|%d|", len(routerLevel))
+		canon := fmt.Sprintf("late|dec%d|%d|", nDec, len(routerLevel))
 		for ph := 0; ph < phases; ph++ {
 			if rapid.Bool().Draw(t, "handlerLevelOnlyThisPhase") {
 				// no router-level registration in this phase
@@ -512,8 +542,14 @@ func TestLateRegistrations(t *testing.T) {
 				t.Fatalf("RunHandlers: %v", err)
 			}
 			for _, h := range hs {
-				probe(h, append([]int{}, routerLevel...))
+				probe(h, append([]int{}, routerLevel...), true)
+				startedWith[h] = append([]int{}, routerLevel...)
 			}
+			// the handlers that were already running are untouched by that RunHandlers call
+			for _, old := range running {
+				probe(old, startedWith[old], false)
+			}
+			running = append(running, hs...)
 			canon += fmt.Sprintf("%d:%d;", len(routerLevel), n)
 		}
 		lib.Case(canon, true, "late-registrations")
